@@ -128,6 +128,10 @@ def run_limited(cmd, timeout, mem_gb, cwd, stdout_path):
     return p.returncode, dt, rss, timed_out
 
 
+import threading
+_parse_lock = threading.Lock()
+
+
 def parse_cbmc_json(path):
     """returns (results list | None, status string, messages)"""
     try:
@@ -140,6 +144,7 @@ def parse_cbmc_json(path):
     results = None
     status = None
     msgs = []
+    stats = {"steps": 0, "vccs": 0, "vccs_remaining": 0}
     for e in data:
         if not isinstance(e, dict):
             continue
@@ -149,6 +154,15 @@ def parse_cbmc_json(path):
             status = e["cProverStatus"]
         if e.get("messageType") in ("ERROR", "WARNING"):
             msgs.append(e.get("messageText", ""))
+        mt = e.get("messageText", "")
+        m = re.match(r"size of program expression: (\d+) steps", mt)
+        if m:
+            stats["steps"] = int(m.group(1))
+        m = re.match(r"Generated (\d+) VCC\(s\), (\d+) remaining", mt)
+        if m:
+            stats["vccs"] = int(m.group(1))
+            stats["vccs_remaining"] = int(m.group(2))
+    parse_cbmc_json.last_stats = stats
     return results, status, msgs
 
 
@@ -295,7 +309,7 @@ def cbmc_cmd(obl, gb, extra=()):
     elif be in ("z3", "cvc5"):
         cmd += ["--" + be]
     cmd += list(obl.get("flags", []))
-    cmd += ["--json-ui"]
+    cmd += ["--json-ui", "--verbosity", "8"]
     cmd += list(extra)
     return cmd
 
@@ -333,7 +347,9 @@ def run_obligation(pid, obl, tier):
         res["status"] = "inconclusive"
         res["messages"].append("timeout after %ds" % timeout)
         return res
-    results, status, msgs = parse_cbmc_json(os.path.join(wdir, "cbmc.json"))
+    with _parse_lock:
+        results, status, msgs = parse_cbmc_json(os.path.join(wdir, "cbmc.json"))
+        res["stats"] = dict(getattr(parse_cbmc_json, "last_stats", {}) or {})
     if results is None:
         res["status"] = "inconclusive" if rc in (-9, -11, 137, 139, 6, -6) else "error"
         try:
@@ -643,9 +659,12 @@ def write_evidence(pid, plan, tier, obls, results, known_hit, reported, broken, 
     nprops = 0
     nontrivial = 0
     shapes = []
+    steps = vccs = 0
     for o in obls:
         r = results[o["name"]]
         queries += 1
+        steps += (r.get("stats") or {}).get("steps", 0)
+        vccs += (r.get("stats") or {}).get("vccs", 0)
         solver_time += r.get("solver_seconds", 0.0)
         peak = max(peak, r.get("rss_mb", 0.0))
         nprops += r.get("n_props", 0)
@@ -695,6 +714,13 @@ def write_evidence(pid, plan, tier, obls, results, known_hit, reported, broken, 
                     "(not timeout/oom) was obtained; obligations are distinct by name (harness x shape).",
             "samples": samples,
             "exhaustive": False,
+            "states": max(steps, 1),
+            "transitions": max(vccs, 1),
+            "traces_validated_against_impl": sum(1 for o, v, b, st in reported if st == "confirmed"),
+            "states_transitions_meaning": "bounded model checking has no explicit state graph: 'states' is the measured total size of the "
+                "unwound program expressions (SSA steps) CBMC generated for this run's obligations, 'transitions' the total number of verification "
+                "conditions generated from them; 'traces_validated_against_impl' counts solver counterexamples of this run that were replayed "
+                "natively (gcc+ASan/UBSan, real sources) and reproduced",
             "technique": "bounded symbolic execution of the real C code (CBMC 6.11, goto-cc) + SAT",
             "functions_encoded": funcs,
             "bounds": bounds,
